@@ -46,9 +46,14 @@ def spell(code, W, ns):
         "'tU[A,B]'": lambda: "typing.Union[KA, KB]", "'(A,B)'": lambda: "(KA, KB)", "'Ann[A|B]'": lambda: "typing.Annotated[KA | KB, 1]",
         "'A|None'": lambda: "KA | None", "'Lit[0,1]'": lambda: "typing.Literal[0, 1]", "'List[A]'": lambda: "typing.List[KA]",
         "Ann[Any]": lambda: typing.Annotated[typing.Any, "meta"], "Ann[object]": lambda: typing.Annotated[object, 1],
+        "(A,None)": lambda: (A, None), "tU[None,A]": lambda: typing.Union[None, A],
+        "Lit[True,1]": lambda: typing.Literal[True, 1], "Lit[1,True]": lambda: typing.Literal[1, True],
+        "Lit[False,2]": lambda: typing.Literal[False, 2], "Lit[2,False]": lambda: typing.Literal[2, False],
         "Lit[0,1]": lambda: typing.Literal[0, 1], "Lit[1,0]": lambda: typing.Literal[1, 0],
         "Lit[0,'a']": lambda: typing.Literal[0, "a"], "Lit['a',0]": lambda: typing.Literal["a", 0],
         "Lit[1,2,3]": lambda: typing.Literal[1, 2, 3], "Lit[3,1,2]": lambda: typing.Literal[3, 1, 2],
+        "Opt['A']": lambda: typing.Optional["KA"], "tU['A',B]": lambda: typing.Union["KA", B], "List['A']": lambda: typing.List["KA"],
+        "list['A']": lambda: list["KA"], "('A',B)": lambda: ("KA", B),
         "dict[A,B]": lambda: dict[A, B], "Dict[A,B]": lambda: typing.Dict[A, B],
         "type[A]": lambda: type[A], "Type[A]": lambda: typing.Type[A],
     }
@@ -59,12 +64,14 @@ MISSING = object()
 PAIRS = [
     ("tU[A,B]", "A|B"), ("tU[A,B]", "(A,B)"), ("tU[A,B]", "oU[A,B]"), ("tU[A,B]", "tU[B,A]"), ("A|B", "B|A"), ("(A,B)", "(B,A)"),
     ("oU[A,B]", "oU[B,A]"), ("tU[A,B,C]", "C|A|B"), ("tU[A,B,C]", "(B,C,A)"), ("A|B", "'A|B'"), ("A|B", "Ann[A|B]"),
-    ("Opt[A]", "A|None"), ("Opt[A]", "None|A"), ("Opt[A]", "tU[A,None]"), ("Opt[A]", "(A,NoneType)"), ("Opt[A]", "'Opt[A]'"),
+    ("Opt[A]", "A|None"), ("Opt[A]", "(A,None)"), ("Opt[A]", "tU[None,A]"), ("Opt[A]", "None|A"), ("Opt[A]", "tU[A,None]"), ("Opt[A]", "(A,NoneType)"), ("Opt[A]", "'Opt[A]'"),
     ("missing", "Any"), ("missing", "object"), ("Any", "object"),
     ("Ann[A]", "A"), ("'A'", "A"), ("Ann[Any]", "Any"), ("Ann[Any]", "missing"), ("Ann[object]", "object"), ("'Any'", "object"), ("'Any'", "missing"), ("'object'", "Any"), ("'Ann[A]'", "A"), ("'Ann[A]'", "Ann[A]"),
     ("'tU[A,B]'", "A|B"), ("'(A,B)'", "tU[A,B]"), ("'Ann[A|B]'", "A|B"), ("'A|None'", "Opt[A]"), ("'Lit[0,1]'", "Lit[1,0]"), ("'List[A]'", "list[A]"),
     ("list[A]", "List[A]"), ("list[A]", "'list[A]'"),
-    ("Lit[0,1]", "Lit[1,0]"), ("Lit[0,'a']", "Lit['a',0]"), ("Lit[1,2,3]", "Lit[3,1,2]"),
+    # a string nested inside a typing construct (typing wraps it in a ForwardRef) names the same type as the whole-annotation string
+    ("Opt[A]", "Opt['A']"), ("tU[A,B]", "tU['A',B]"), ("list[A]", "List['A']"), ("list[A]", "list['A']"), ("(A,B)", "('A',B)"),
+    ("Lit[0,1]", "Lit[1,0]"), ("Lit[True,1]", "Lit[1,True]"), ("Lit[False,2]", "Lit[2,False]"), ("Lit[0,'a']", "Lit['a',0]"), ("Lit[1,2,3]", "Lit[3,1,2]"),
 ]
 SURROUND = ["none", "obj", "A", "B", "C", "A|C", "B|C", "obj,A", "obj,B|C", "int", "list", "type"]
 _MS = MethodSet([dict(pos=[("x", ("obj",), False)]) for _ in range(3)])
